@@ -18,11 +18,11 @@ CHECKS = {
                 note="As C01. 'Rate coefficients held fixed' = results of EvalRates/GetNumDens/GetMu/GetGamma have zero gradient. Particle density and k_B assumed non-zero."),
     "C03": dict(engine=E1, cat="translation_validation", sec="6 C03",
                 technique="symbolic execution with exactly-sized, bounds-checked memory objects; array-theory SMT queries (symbolic row/position) for CSR well-formedness; SMT equivalence of dense / odeint / CSR / cuSPARSE entries",
-                text="All memory accesses of Fex/Jac/EvalRates stay inside objects sized by the generated macros; the CSR arrays satisfy the well-formedness formula for a symbolic row and position; dense, odeint, sparse and cusparse Jacobians hold solver-equal terms at the same (row, col); the pattern file marks exactly the stored entries; the cusparse driver (Naunet::Init / Reset, executed symbolically with recording stubs) keeps only block-CSR matrices of the declared shape that went through InitJac.",
+                text="All memory accesses of Fex/Jac/EvalRates stay inside objects sized by the generated macros; the CSR arrays satisfy the well-formedness formula for a symbolic row and position; dense, odeint, sparse and cusparse Jacobians hold solver-equal terms at the same (row, col); the pattern file marks exactly the stored entries; a second evaluation of the sparse Jacobian on the same matrix after SUNMatZero (in the state the first left) yields the same index arrays and solver-equal values; the cusparse driver (Naunet::Init / Reset, executed symbolically with recording stubs) keeps only block-CSR matrices of the declared shape that went through InitJac.",
                 note="As C01. Offsets are concrete in generated code, so bounds are decided exactly per project."),
     "C04": dict(engine=E1, cat="translation_validation", sec="6 C04",
                 technique="symbolic execution of compiled Fex and GetElementAbund + SMT: element- and charge-weighted sums of ydot are identically zero for enumerated balanced networks, and the library's element totals are the count-weighted sums, with weights from a hand-written composition table",
-                text="For exhaustively enumerated balanced reactions over seven molecule pools (ions, both electron spellings, o/p labels, isotopologues, ice/gas pairs, grains in several charge states, multiply charged anions, formulas repeating an element symbol, names beginning like a pseudo-element symbol such as Mg / oH2 / c-C3H), API-built and written in each of the five input formats, z3 shows sum_s c_e(s)*ydot_s != 0 unsat for each element and for charge, for all y and k, on all back-ends; GetElementAbund(ab, e) != sum_s c_e(s)*ab_s is unsat for all ab; every reaction as held by the network after reading a balanced input is itself balanced by the same table (concrete side obligation).",
+                text="For exhaustively enumerated balanced reactions over seven molecule pools (ions, both electron spellings, o/p labels, isotopologues, ice/gas pairs, grains in several charge states, multiply charged anions, formulas repeating an element symbol, names beginning like a pseudo-element symbol such as Mg / oH2 / c-C3H), API-built, written in each of the five line-oriented input formats and as a KROME file with several @format directives of equal column count, z3 shows sum_s c_e(s)*ydot_s != 0 unsat for each element and for charge, for all y and k, on all back-ends; GetElementAbund(ab, e) != sum_s c_e(s)*ab_s is unsat for all ab; every reaction as held by the network after reading a balanced input is itself balanced by the same table (concrete side obligation).",
                 note="As C01. Compositions come from the corpus' own table (vf/corpus_balanced.py), not from the generator's name parser."),
     "C05": dict(engine=E1, cat="translation_validation", sec="6 C05",
                 technique="symbolic execution of the compiled EvalRates (floating literals lifted to exact-valued externs so nothing is constant-folded) + SMT equivalence with each database's rate law, libm as uninterpreted functions; native libm replay",
@@ -30,19 +30,19 @@ CHECKS = {
                 note="Coefficients are enumerated (sign classes, literal shapes), physical parameters are symbolic. libm as UFs with exact values at 0/1. Self-shielding special cases and Leeds types 5/15-19 (emitted as 0.0 by design) are outside the claim."),
     "C06": dict(engine=E1, cat="translation_validation", sec="6 C06",
                 technique="symbolic execution of the compiled EvalRates with sentinel-initialised k: the store guard of every k[i] is extracted and SMT-compared with Tmin<=T<Tmax for all T; callers' zero-initialisation read from the compiled Fex/Jac",
-                text="For every window shape (none, lower, upper, both, zero, negative, equal bounds; KROME spellings .LE. > d-exponents NONE) in all six formats, z3 shows for all Tgas that k[i] is assigned iff the window predicate holds; adjacent piecewise windows have exactly one active member at every T including boundaries; the same for grain-surface and gas-grain processes of Leeds (hh93) and UCLCHEM (rr07x) networks carrying windows; Fex/Jac hand EvalRates a zero-initialised array.",
+                text="For every window shape (none, lower, upper, both, zero, negative, equal bounds; KROME spellings .LE. > d-exponents NONE, numbers beginning with the decimal point; UMIST entries tabulated with several fits) in all six formats, z3 shows for all Tgas that k[i] is assigned iff the window predicate holds; adjacent piecewise windows have exactly one active member at every T including boundaries; the same for grain-surface and gas-grain processes of Leeds (hh93) and UCLCHEM (rr07x) networks carrying windows; Fex/Jac hand EvalRates a zero-initialised array.",
                 note="Temperature is a real-valued symbol (boundaries are ordinary values). Reactions overridden by a rate modifier are excluded by design (C13); UCLCHEM accretion lines declare [0, 30) by the reader's documented rule."),
     "C07": dict(engine=E2, cat="exploration", sec="6 C07",
                 technique="decode(encode(m)) == m: CrossHair (z3) drives symbolic selectors over abstract reactions, independent per-format encoders write the line/file, the real parsers decode it (untraced); every selection of every condition explored",
-                text="For each of the six formats: reactant and product multisets (marker tokens never become species; names at the column-width limit), alpha/beta/gamma for signed/exponent/integer literals, temperature window, index and the reaction type of every format code (KIDA out-of-range formula -> 3, UCLCHEM FREEZE window rule); files with blank, whitespace-only, comment and directive lines at every position yield one reaction per data line in file order.",
+                text="For each of the six formats: reactant and product multisets (marker tokens never become species; names at the column-width limit), alpha/beta/gamma for signed/exponent/integer literals, temperature window, index and the reaction type of every format code (KIDA out-of-range formula -> 3, UCLCHEM FREEZE window rule, UMIST entries with several fits read from their first block, KROME window spellings); files with blank, whitespace-only, comment and directive lines at every position yield one reaction per data line in file order.",
                 note="Selector enumeration (29 conditions x 512 selections), not symbolic strings; the encoders are the format definitions."),
     "C08": dict(engine=E2, cat="exploration", sec="6 C08",
                 technique="CrossHair (z3) drives symbolic selectors over compositions; each selected composition is spelled as a name, parsed by the real Species (untraced) and compared field by field with the composition it was built from; all paths of every condition exhausted",
-                text="All ordered pairs and triples of clash-prone symbols (H/He, C/Cl/Ca, S/Si, N/Na/Ni, F/Fe...), every default element with counts and 6 charge states, surface prefixes '#'/'G', ortho/para labels, the UCLCHEM upper-case list with replacement (renamed names), electrons, grains (default and custom symbols with group numbers in every charge state), H2*, c-/l- isomers: element counts, charge, phase, gas counterpart, mass number and is_atom are exactly those of the composition; names with foreign characters are rejected.",
+                text="All ordered pairs and triples of clash-prone symbols (H/He, C/Cl/Ca, S/Si, N/Na/Ni, F/Fe...), every default element with counts and 6 charge states, surface prefixes '#'/'G', ortho/para labels, the UCLCHEM upper-case list with replacement (renamed names), electrons, grains (default and custom symbols with group numbers in every charge state), H2*, c-/l- isomers, surface prefixes followed by a grain-population number: element counts, charge, phase, gas counterpart, mass number and is_atom are exactly those of the composition; names with foreign characters are rejected.",
                 note="Selector enumeration by the solver, not symbolic strings (CrossHair's regex model is unreliable on this tokenizer; stated in DESIGN.md). Mass numbers from an independent table."),
     "C09": dict(engine=E2, cat="exploration", sec="6 C09",
                 technique="CrossHair-selected name pairs on the real Species.__eq__/__hash__/alias + per-project z3 Distinct/range queries over the index tables read back from every generated artefact (macros through the real preprocessor, Python constants via ast, TOML summary, Enzo patch header)",
-                text="For all ordered pairs of 40 names: equality, hash equality and alias equality coincide with species identity and every alias is a legal identifier; for four rendered projects the species and element macros are bijections onto 0..N-1 and agree with constant_indexes.py, the counts and per-slot lists of pynaunet_model/constants.py, the [summary] written by `naunet render`, the A_ table of the Enzo patch (rendered by a separate interpreter run under another string-hash seed) and the per-species fields of every other patch file.",
+                text="For all ordered pairs of 40 names: equality, hash equality and alias equality coincide with species identity and every alias is a legal identifier; for four rendered projects the species and element macros are bijections onto 0..N-1 and agree with constant_indexes.py, the counts and per-slot lists of pynaunet_model/constants.py, the [summary] written by `naunet render`, the A_ table of the Enzo patch (rendered by a separate interpreter run under another string-hash seed) and the per-species fields of every other patch file; the Enzo patch is the same, up to the alias eM/EM, however the electron is spelled.",
                 note="Per-project obligations are ground facts (stated as such); names and identity classes are a fixed table."),
     "C14": dict(engine=E2, cat="exploration", sec="6 C14",
                 technique="CrossHair symbolic execution (z3) of the real Network add/remove/allowed-species/source-sink logic on stub species with symbolic integer identities (all paths), plus solver-selected operation sequences on real reactions compared with an explicit model; the extend command is driven for real and compared with the same model",
@@ -62,7 +62,7 @@ CHECKS = {
                 note="Two configuration classes are recorded known findings (UCLCHEM network without H2; hh93i without Leeds reactions). Declaration-only API shims: names, not linking. Single grain group."),
     "C11": dict(engine=E1, cat="translation_validation", sec="6 C11",
                 technique="symbolic execution of the compiled EvalRates (exact literals, libm uninterpreted) for Leeds- and UCLCHEM-format grain reactions under each dust model + SMT equivalence with independently written Hasegawa-Herbst / Roberts et al. formulae; native libm replay; unsupported (model, process) pairs must be refused",
-                text="For accretion (neutral / ion / electron), thermal, cosmic-ray, photo and H2-formation desorption, grain recombination and electron capture under hh93, hh93i, rr07, rr07x and species CO, H2O, CH4, C, H, C+, H3O+, e- (RATE12 and user-supplied binding energies and yields) z3 shows 'exists physical parameters: k[i] assigned and != law' unsat; models asked for a process they do not implement refuse at generation time.",
+                text="For accretion (neutral / ion / electron), thermal, cosmic-ray, photo and H2-formation desorption, grain recombination and electron capture under hh93, hh93i, rr07, rr07x and species CO, H2O, CH4, C, H, C+, H3O+, e- (RATE12 and user-supplied binding energies and yields, set before the network exists or changed between two renderings) z3 shows 'exists physical parameters: k[i] assigned and != law' unsat; models asked for a process they do not implement refuse at generation time.",
                 note="Mass numbers and binding energies are read independently; physical constants as the project defines them; GetMantleDens opaque; constants inside libm calls are identified up to double rounding (the generator prints quotients such as E_b/A as one literal)."),
     "C12": dict(engine=E1, cat="translation_validation", sec="6 C12",
                 technique="the real Fortran->C translator's output is compiled (exact literals) and executed symbolically; z3 compares it, for all variable values, with the term an independent Fortran-semantics reader builds from the input text (libm uninterpreted); sat answers replayed natively with real libm",
@@ -74,7 +74,7 @@ CHECKS = {
                 note="Modifier expressions are arithmetic over parameters; one 6-reaction KIDA network and one unindexed API network; all parameters, abundances and rate values symbolic."),
     "C20": dict(engine=E1, cat="translation_validation", sec="6 C20",
                 technique="differential symbolic execution of the project rendered by `naunet init`+`naunet render` (real CLI, real TOML) against the project rendered through Network(...) for the requested description: SMT equivalence of every rate coefficient and derivative, ground equality of macro tables and TOML fields; CrossHair symbolic execution of InitCommand.handle on symbolic option strings",
-                text="For the bundled examples (minimal, primordial, empty; deuterium and cloud in thorough) and option-value classes (blanks around separators in lists and key=value tables, extra species, modifiers, binding energies and yields, non-default symbols) the configuration file records what was requested and the command-line rendering is equivalent for all inputs to the API rendering; Network.export for dense / sparse / odeint records the requested solver selection and re-renders to the same back-end with equal right-hand sides.",
+                text="For the bundled examples (minimal, primordial, empty; deuterium and cloud in thorough) and option-value classes (blanks around separators in lists and key=value tables, extra species, modifiers, binding energies and yields, non-default symbols, self-shielding tables) the configuration file records what was requested and the command-line rendering is equivalent for all inputs to the API rendering; Network.export for dense / sparse / odeint records the requested solver selection and re-renders to the same back-end with equal right-hand sides.",
                 note="End-to-end cases are enumerated option classes; the option parser itself is additionally executed by CrossHair on symbolic strings of <=4 characters; prompts are not exercised; `ism` needs an external file."),
     "C18": dict(engine=E1, cat="translation_validation", sec="6 C18",
                 technique="ground field-wise comparison of two native write/read cycles + differential symbolic execution: compiled EvalRates/Fex of the direct rendering vs. Network.export re-rendered by `naunet render` in the exported directory, SMT equivalence for all parameter values, native replay of every sat answer",
